@@ -453,6 +453,18 @@ pub fn wake_all() {
     });
 }
 
+/// Wakes every unfinished application task (not the connection tasks).
+pub fn wake_app_tasks() {
+    with(|w| {
+        for t in &w.tasks {
+            if !t.done && t.kind == TaskKind::App {
+                t.w.woken.store(true, Ordering::SeqCst);
+                t.w.cause.store(CAUSE_WORLD, Ordering::SeqCst);
+            }
+        }
+    });
+}
+
 /// Called from transport callbacks inside a connection poll: run up to k other
 /// runnable application tasks inline (they execute exactly where another
 /// thread could: h2 holds no lock while it is inside the transport).
